@@ -20,17 +20,24 @@ SeqSet(s) == { s[k] : k \in 1..Len(s) }
 (* an expected TIMEX "*" leaves the TIMEX unconstrained (the statement fixes only the endpoints) *)
 Wild(c, vs) == [k \in 1..Len(vs) |-> IF \E x \in SeqSet(c.vals) : x[1] = "*" THEN <<"*", vs[k][2], vs[k][3], vs[k][4]>> ELSE vs[k]]
 
+(* one entity e against the expectation x = [s, e, type, vals, ordered] *)
+OneVerdict(x, e) ==
+  IF e.s # x.s \/ e.e # x.e THEN "Span: the entity does not cover exactly the expression"
+  ELSE IF e.type # "datetimeV2." \o x.type THEN "Type: entity type is " \o e.type \o ", expected datetimeV2." \o x.type
+  ELSE IF ~Has(e.res, "values") THEN "Resolved: the entity carries no resolution values"
+  ELSE IF x.ordered /\ Wild(x, ObsVals(e)) # x.vals THEN "Values: resolution values differ from the expected sequence"
+  ELSE IF ~x.ordered /\ (SeqSet(Wild(x, ObsVals(e))) # SeqSet(x.vals) \/ Len(ObsVals(e)) # Len(x.vals)) THEN "Values: resolution values differ from the expected set"
+  ELSE "ok"
+(* c.lead, when present, is an entity expected before the main one (split date and time mode) *)
 ExactVerdict(c, obs) ==
   LET es == obs.ents IN
   IF Len(es) = 0 THEN "Recognised: the expression yields no entity"
+  ELSE IF Has(c, "lead") THEN
+       (IF Len(es) # 2 THEN "Split: date and time are not returned as two entities"
+        ELSE IF OneVerdict(c.lead, es[1]) # "ok" THEN OneVerdict(c.lead, es[1])
+        ELSE OneVerdict(c, es[2]))
   ELSE IF Len(es) > 1 THEN "Single: the expression yields more than one entity"
-  ELSE LET e == es[1] IN
-       IF e.s # c.s \/ e.e # c.e THEN "Span: the entity does not cover exactly the expression"
-       ELSE IF e.type # "datetimeV2." \o c.type THEN "Type: entity type is " \o e.type \o ", expected datetimeV2." \o c.type
-       ELSE IF ~Has(e.res, "values") THEN "Resolved: the entity carries no resolution values"
-       ELSE IF c.ordered /\ Wild(c, ObsVals(e)) # c.vals THEN "Values: resolution values differ from the expected sequence"
-       ELSE IF ~c.ordered /\ (SeqSet(Wild(c, ObsVals(e))) # SeqSet(c.vals) \/ Len(ObsVals(e)) # Len(c.vals)) THEN "Values: resolution values differ from the expected set"
-       ELSE "ok"
+  ELSE OneVerdict(c, es[1])
 
 MonthNameEn == <<"January", "February", "March", "April", "May", "June", "July", "August", "September", "October", "November", "December">>
 MonthAbbrEn == <<"Jan", "Feb", "Mar", "Apr", "May", "Jun", "Jul", "Aug", "Sep", "Oct", "Nov", "Dec">>
